@@ -1,11 +1,14 @@
 """C01 – typed set/get: case generation."""
 import random
 from vf import Case
+from gen import constants
 from props.regcommon import TYPES, SIZE, BITS, checks, values, hexv, default_for
 
 ID = "C01"
 DRIVER = "drv_regtable"
 HARNESS = "h_regtable"
+GEN = [constants.gen]
+TIE = ['Ufw.Tie.RegTable']
 RULE = ("table family: one target register of each of the 8 types x 8 constraint kinds (none, always-fail, min, max, range, three callbacks) "
         "x {little, big endian} x {memory-backed, callback-backed, no-write-callback} area, with a 16-bit neighbour register on either side; "
         "values: type extremes, constraint bounds -1/0/+1, every single bit, all float classes (+-0, subnormals, smallest/largest normal, "
